@@ -21,7 +21,7 @@ TEXT = {
  "C13": ("6 C13", T + "SerDe events validated against DelaunayAPI!SerDeOK (uuid, coordinate bits, data, cells, neighbour relation, equality, verdicts) and twin continuation Compare events"),
  "C12": ("6 C12", T + "Pred events (every tuple x permutation x formulation x kernel) judged against exact integer determinants in the library's documented sign convention, with the tolerance band computed in the spec (Pure.tla: DecOrient / DecSphere / ZeroOrientOK); exhaustive on the 3x3 grid, the unit cube in the thorough tier"),
  "C14": ("6 C14", T + "history variable memo[determinism key] over repeated, permuted, re-ordered, threaded and cross-process constructions; Canon events require K = DT(S) in general position"),
- "C16": ("6 C16", T + "toroidal Construct / Insert events validated against exact modular arithmetic (w = m mod L), the half-open box, idempotence, and the C01 certificate of the wrapped set. The periodic image-point mode (closed surface, chi = 0) is NOT covered by this revision"),
+ "C16": ("6 C16", T + "toroidal Construct / Insert events validated against exact modular arithmetic (w = m mod L), the half-open box, idempotence, and the C01 certificate of the wrapped set; the periodic image-point mode (2-D) is checked on lifted (vertex, offset) faces: every facet in exactly two cells, neighbour slots, chi = 0, each input once"),
  "C17": ("6 C17", T + "complete Hilbert index tables (bijection onto 0..N-1, unit steps) for all small grids D=1..5, permutation contract of every ordering strategy, exact/epsilon dedup contracts of all seven variants, on lattice inputs with ties, signed zeros and near duplicates"),
  "C18": ("6 C18", T + "Gen_Measures: TLC enumerates simplices with exact integer ingredients (determinant, facet Gram determinants, Cramer numerators); each is replayed five times (permutation, translation, scaling) and the library's f64 results are compared with the exact values (relative 1e-9) in the harness; TLC re-derives determinant and degeneracy class of every replayed vector"),
  "C19": ("6 C19", T + "no trace-specification action accepts a panic or watchdog-timeout event; all histories of all families plus an adversarial family (extreme scales, non-finite coordinates at every entry point, mixed magnitudes) are validated in a mode where only the C19 conjuncts (panic, timeout, transcribed work budgets, refusal of non-finite coordinates) can reject"),
